@@ -237,7 +237,8 @@ def hdfcases(draw):
     hist = draw(st.lists(st.tuples(st.sampled_from(["g1", "g1", "g2"]), st.booleans(), st.integers(1, 6)),
                          min_size=1, max_size=4))
     seed = draw(st.integers(0, 2 ** 31 - 1))
-    return dict(cf=a, hist=hist, seed=seed)
+    compression = draw(st.sampled_from([None, None, "lzf", "gzip"]))
+    return dict(cf=a, hist=hist, seed=seed, compression=compression)
 
 
 def check_colfile_hdf(case, rec=None):
@@ -263,12 +264,16 @@ def check_colfile_hdf(case, rec=None):
             if not same:
                 arrays = {t: arrays[t] for t in titles[:max(1, len(titles) - 1)]}
         cf = columnfile.colfile_from_dict(dict(arrays))
-        ok, e = guard(columnfile.colfile_to_hdf, cf, fn, grp)
+        ok, e = guard(columnfile.colfile_to_hdf, cf, fn, grp, case.get("compression"))
         if not ok:
-            if isinstance(e, TypeError) and "different length" in str(e) and grp in last and \
+            # a dataset that cannot be resized: documented TypeError (contiguous data) or h5py's own error
+            # (chunked data created with compression but without maxshape) - a clean rejection either way
+            if isinstance(e, (TypeError, RuntimeError, ValueError)) and any(
+                    w in str(e).lower() for w in ("different length", "resize", "dimension", "maximal size")) \
+                    and grp in last and \
                     len(next(iter(last[grp].values()))) != nrows:
                 if rec is not None:
-                    rec.exclude("HDF overwrite with a different length rejected with the documented TypeError")
+                    rec.exclude("HDF overwrite with a different length rejected (documented TypeError, or h5py resize error)")
                 # the group may now be partially written: not specified, stop this history here
                 last.pop(grp, None)
                 break
@@ -284,19 +289,15 @@ def check_colfile_hdf(case, rec=None):
         else:
             last[grp] = dict(arrays)
         for g, exp in last.items():
-            ok, r = guard(columnfile.colfile_from_hdf, fn, g)
-            if not ok:
-                # reading a group that holds columns of unequal length is outside the contract
-                if g == grp or all(len(v) == len(next(iter(exp.values()))) for v in exp.values()):
-                    lens = _hdf_lengths(fn, g)
-                    if len(set(lens.values())) > 1:
-                        if rec is not None:
-                            rec.exclude("HDF group left with columns of unequal length after a partial overwrite")
-                        continue
-                    fails.append(exc_failure("colfile_from_hdf", r))
-                continue
             lens = _hdf_lengths(fn, g)
             if len(set(lens.values())) > 1:
+                # a partial overwrite left columns of unequal length in the group: reading it is outside the contract
+                if rec is not None:
+                    rec.exclude("HDF group left with columns of unequal length after a partial overwrite")
+                continue
+            ok, r = guard(columnfile.colfile_from_hdf, fn, g)
+            if not ok:
+                fails.append(exc_failure("colfile_from_hdf", r))
                 continue
             if not set(exp).issubset(set(r.titles)):
                 fails.append(fail("hdf_titles", "group %s: titles read %s, written %s" % (g, r.titles, sorted(exp)),
